@@ -62,6 +62,9 @@ def cases(tier, seed):
         for m in MCMC_OPS * (2 if tier == "quick" else 3):
             out.append({"algorithm": "mcmc", "ops": m, "dense": bool(rng.random() < 0.4), "dtype": "torch.float64", "nn": False, "definition": "tensor",
                         "frequency": int(rng.choice([1, 2, 3, 5])), "seed": int(rng.integers(2**31)), "adapt": True})
+    for m in ("hmc", "hmc-dual"):
+        out.append({"algorithm": "mcmc", "ops": m, "dense": False, "dtype": "torch.float64", "nn": False, "definition": "tensor", "frequency": 2, "seed": int(rng.integers(2**31)), "adapt": True,
+                    "find_step_size": True})
     for i, c in enumerate(out):
         c["split"] = i % 3 == 1
     return out
@@ -158,6 +161,8 @@ def mcmc_spec(case, rng, ckpt):
             ad.append({"id": "ad.mass", "type": "MassMatrixAdaptor", "parameters": ["z"], "mass_matrix": "op.hmc.mass", "update_frequency": 2, "swap_every": 4})
         if ad:
             hmc["adaptors"] = ad
+        if case.get("find_step_size"):
+            hmc["find_reasonable_step_size"] = True  # documented HMCOperator option: search a step size while the operator is constructed
         sel = {"scaler": ["op.scale"], "sliding": ["op.slide"], "dirichlet": ["op.dirichlet"], "mixed": list(by)}.get(kind, ["op.hmc"])
         ops = [by[i] for i in sel]
         if kind.startswith("hmc"):
@@ -417,7 +422,12 @@ def run_case(case):
             d = first_difference(frozen, B.before_run)
             if d:
                 path, a, b = d
-                V.append(tt.viol("C17:state:%s:%s" % (alg, path), "%s (%s), checkpoint %d: %s is %s when the checkpoint is written and %s after restarting from it"
+                sig = "C17:state:%s:%s" % (alg, path)
+                if case.get("find_step_size") and "parameters" in path:
+                    # mechanism: find_reasonable_step_size runs trial trajectories on the parameters while HMCOperator is being
+                    # constructed, after the checkpoint's values have been put into the specification, and never puts them back
+                    sig = "C17:state:hmc-find_reasonable_step_size:parameters-moved-while-the-operator-is-constructed"
+                V.append(tt.viol(sig, "%s (%s), checkpoint %d: %s is %s when the checkpoint is written and %s after restarting from it"
                                  % (alg, kind, idx, path, str(a)[:120], str(b)[:120]), **detail))
                 break
             C["iteration_counter_repeats_observed"] += 1
